@@ -140,3 +140,14 @@ CASES += [
     t("order handed on positionally", P,
       "            return self.__propagate_short_exp_with_rel_operators(rhoi, L=L)", "            return self.__propagate_short_exp_with_rel_operators(rhoi, L)"),
 ]
+
+CASES += [
+    m("state vector evolution does not define its frame flag (the repaired defect)", "C02-D", SVE,
+      "        # propagators which work in the rotating frame set this to True\n        self.is_in_rwa = False\n", ""),
+    m("density matrix evolution derived from amplitudes loses the frame (the repaired defect)", "C02-D", SVE,
+      "        rhot = DensityMatrixEvolution(timeaxis=self.TimeAxis,\n                                      is_in_rwa=self.is_in_rwa)",
+      "        rhot = DensityMatrixEvolution(timeaxis=self.TimeAxis)"),
+    t("frame handed on by assignment", SVE,
+      "        rhot = DensityMatrixEvolution(timeaxis=self.TimeAxis,\n                                      is_in_rwa=self.is_in_rwa)",
+      "        rhot = DensityMatrixEvolution(timeaxis=self.TimeAxis)\n        rhot.is_in_rwa = self.is_in_rwa"),
+]
